@@ -7,6 +7,7 @@ import (
 	"encoding/hex"
 	"encoding/json"
 	"fmt"
+	"sync"
 	"time"
 
 	"github.com/anyproto/any-sync/app/ldiff"
@@ -26,6 +27,8 @@ type spec struct {
 	Df      int         `json:"df"`
 	Th      int         `json:"th"`
 	ThR     int         `json:"thr,omitempty"`  // responder's threshold (0 = same as Th)
+	Askers  [][]ldiffh.El `json:"askers,omitempty"` // concurrent mode: several askers diff against ONE shared responder (R) in parallel
+	Iters   int         `json:"iters,omitempty"`
 	OpsL    []hop       `json:"opsL,omitempty"` // when set, the indexes are reached by these histories
 	OpsR    []hop       `json:"opsR,omitempty"`
 	L       []ldiffh.El `json:"L"`
@@ -138,7 +141,73 @@ func genHistory(r *vlib.Rand, g *ldiffh.HashGen, final []ldiffh.El, otherOnly []
 	return ops
 }
 
+// runConcurrent: all askers run Diff / CompareDiff against one shared responder at the same time, repeatedly; the
+// first result that differs from the set difference is returned as Err (the property holds for every pair of
+// indexes, whoever else is talking to the responder)
+func runConcurrent(s spec) (res result) {
+	r := ldiff.New(s.Df, s.Th)
+	fill(r, s.R)
+	var remote ldiff.Remote = r
+	if s.Wire {
+		remote = headsync.NewRemoteDiff("space", wireClient{r})
+	}
+	askers := make([]ldiff.Diff, len(s.Askers))
+	for i, a := range s.Askers {
+		askers[i] = ldiff.New(s.Df, s.Th)
+		fill(askers[i], a)
+	}
+	deadline := time.Now().Add(6 * time.Second)
+	var mu sync.Mutex
+	for it := 0; it < s.Iters && time.Now().Before(deadline) && res.Err == "" && res.Panic == ""; it++ {
+		var wg sync.WaitGroup
+		for i := range askers {
+			wg.Add(1)
+			go func(i int) {
+				defer wg.Done()
+				defer func() {
+					if p := recover(); p != nil {
+						mu.Lock()
+						res.Panic = fmt.Sprint(p)
+						mu.Unlock()
+					}
+				}()
+				var one result
+				var err error
+				sp := spec{L: s.Askers[i], R: s.R, Variant: s.Variant}
+				ctx, cancel := context.WithTimeout(context.Background(), 5*time.Second)
+				defer cancel()
+				if (i+it)%2 == 0 {
+					sp.Variant = "compare"
+					one.New, one.Changed, one.Theirs, one.Removed, err = askers[i].(ldiff.CompareDiff).CompareDiff(ctx, remote)
+				} else {
+					sp.Variant = "diff"
+					one.New, one.Changed, one.Removed, err = askers[i].Diff(ctx, remote)
+				}
+				msg := ""
+				if err != nil {
+					msg = "error: " + err.Error()
+				} else {
+					one.New, one.Changed, one.Theirs, one.Removed = hexAll(one.New), hexAll(one.Changed), hexAll(one.Theirs), hexAll(one.Removed)
+					msg = oracle(sp, one)
+				}
+				if msg != "" {
+					mu.Lock()
+					if res.Err == "" {
+						res.Err = fmt.Sprintf("asker %d, iteration %d, %s: %s", i, it, sp.Variant, msg)
+					}
+					mu.Unlock()
+				}
+			}(i)
+		}
+		wg.Wait()
+	}
+	return
+}
+
 func runCase(s spec) (res result) {
+	if len(s.Askers) > 0 {
+		return runConcurrent(s)
+	}
 	defer func() {
 		if p := recover(); p != nil {
 			res.Panic = fmt.Sprint(p)
@@ -575,8 +644,58 @@ func main() {
 			w.Violation(idx, "c07-large-wrong", msg, desc)
 		}
 	}
+	// concurrent askers against one shared responder (results compared with the set difference directly)
+	nc := 1
+	if o.Tier == "thorough" {
+		nc = 6
+	}
+	for k := 0; k < nc*o.Budget; k++ {
+		if fatal >= 8 {
+			break
+		}
+		df, th := 16, 16
+		if k%2 == 1 {
+			df, th = ldiffh.Dfs[r.Intn(len(ldiffh.Dfs))], []int{2, 8, 64}[r.Intn(3)]
+		}
+		_, R := genSets(r, df, "uniform", 2500+r.Intn(1500))
+		s := spec{Df: df, Th: th, R: R, Variant: "diff", Wire: k%2 == 1, Shape: "concurrent", Iters: 40}
+		for a := 0; a < 8; a++ {
+			var L []ldiffh.El
+			for _, e := range R { // each asker: R with some removed, some head changes, some own
+				switch r.Intn(12) {
+				case 0:
+				case 1:
+					e.Head += 1 + r.Intn(3)
+					L = append(L, e)
+				default:
+					L = append(L, e)
+				}
+			}
+			for j := 0; j < 50+r.Intn(100); j++ {
+				L = append(L, ldiffh.El{Salt: uint64(900000 + a*1000 + j), Hash: r.U64(), Head: r.Intn(50)})
+			}
+			s.Askers = append(s.Askers, L)
+		}
+		req, _ := json.Marshal(s)
+		respB, fail := child.Call(req, 60*time.Second)
+		var res result
+		if fail == "" && json.Unmarshal(respB, &res) != nil {
+			fail = "crash: bad response"
+		}
+		term := fmt.Sprintf("(ICLarge %d %d)%%uint63", len(s.Askers), len(R))
+		desc := map[string]interface{}{"concurrent": true, "df": df, "th": th, "askers": len(s.Askers), "nR": len(R), "wire": s.Wire, "fail": fail, "result": res.Err + res.Panic}
+		idx := w.Add(term, desc, fmt.Sprintf("concurrent-%d-%d", k, len(R)), true)
+		w.Stat("concurrent_oracle_only")
+		if fail != "" || res.Panic != "" {
+			fatal++
+			w.Violation(idx, "c07-crash", "concurrent diffs crashed or hung: "+fail+res.Panic, desc)
+		} else if res.Err != "" {
+			w.Violation(idx, "c07-concurrent-wrong", "a diff run concurrently with others against one responder is not the exact difference: "+res.Err, desc)
+		}
+	}
 	w.Finish("random pairs of head indexes: df in {2,3,4,5,7,16,32,33}, th in {1,2,3,8}, hash shapes uniform / deep bucket / narrow window / range boundaries / colliding hashes / mixed (ids placed through the xxhash64 inverse), "+
 		"R derived from L by add / remove / head change; 1 in 3 pairs are reached by Set/RemoveId HISTORIES (temporary elements incl. ones the other side still holds, head rewrites) and half of those give the responder another threshold; plus a shrink-and-grow family (deep cluster of thR+1 elements, one removed, growth next to it, asker threshold <= responder threshold); both Diff and CompareDiff; 1 in 4 through NewRemoteDiff+protobuf+HandleRangeRequest; plus production parameters (32,256) with 300-600 elements; "+
+		"plus concurrent runs (8 askers diffing against one shared 2500-4000-element responder in parallel, 40 iterations, oracle only: stat concurrent_oracle_only); "+
 		"plus a few LARGE pairs (quick 2000-5000, thorough 5000-30000 elements) whose result is compared with the directly computed set difference only (no model run: stat large_oracle_only); "+
 		"non-trivial = at least 2 elements overall; distinct by (params, variant, wire, both contents)",
 		samples, nil)
